@@ -242,3 +242,301 @@ Example ex_tms_exact :
 Proof.
   split; [exact ex_geodetic_wf|]. repeat split; vm_compute; reflexivity.
 Qed.
+
+(* ---- WMTS *)
+Lemma find_some_id (ms : list tile_matrix) m tm :
+  find (fun t => tm_id t =? m) ms = Some tm -> In tm ms /\ tm_id tm = m.
+Proof. intros H. apply find_some in H. destruct H as [Hi He]. split; [exact Hi|lia]. Qed.
+
+Lemma wmts_matrix_fields s l :
+  tm_id (wmts_matrix s l) = l /\ tm_tw (wmts_matrix s l) = tw (sg s) /\ tm_th (wmts_matrix s l) = th (sg s) /\
+  tm_w (wmts_matrix s l) = fst (grid_size (sg s) l) /\ tm_h (wmts_matrix s l) = snd (grid_size (sg s) l) /\
+  (let '(tlx, tly) := if s_ne s then (snd (tm_top (wmts_matrix s l)), fst (tm_top (wmts_matrix s l))) else tm_top (wmts_matrix s l) in
+   tlx = gx0 (sg s) /\
+   tly = if ul (sg s) then gy1 (sg s) else gy0 (sg s) + snd (grid_size (sg s) l) * res_at (sg s) l * th (sg s)).
+Proof.
+  unfold wmts_matrix, origin_tile, flip_tile_coord, tile_bbox.
+  destruct (ul (sg s)) eqn:U; cbn [Bool.eqb]; rewrite ?U;
+    destruct (grid_size (sg s) l) as [nx ny]; cbn [snd fst]; rewrite ?U;
+    cbn [tm_id tm_tw tm_th tm_w tm_h tm_top fst snd];
+    repeat split; destruct (s_ne s); cbn [fst snd]; split; ring.
+Qed.
+
+Lemma wmts_address_exact_l s srv m col row r :
+  0 < s_mpu_n s -> 0 < s_mpu_d s -> skip_odd s = false ->
+  client_rect s srv (AWmts m col row) = Some r ->
+  exists c, served s srv (AWmts m col row) = Some c /\ tile_bbox_c (sg s) c = r.
+Proof.
+  intros Hn Hd Hs. unfold client_rect, wmts_matrix_set, served.
+  destruct (wmts_offered s) eqn:Ho; [|discriminate].
+  destruct (find (fun tm => tm_id tm =? m) (map (wmts_matrix s) (zrange 0 (levels (sg s) - 1)))) as [tm|] eqn:Ef; [|discriminate].
+  apply find_some_id in Ef. destruct Ef as [Hi Hid].
+  apply in_map_iff in Hi. destruct Hi as (l & <- & Hl). apply zrange_In in Hl.
+  pose proof (wmts_matrix_fields s l) as (Fid & Ftw & Fth & Fw & Fh & Ftop).
+  rewrite Fid in Hid. subst m. rewrite Fw, Fh.
+  destruct ((0 <=? col) && (col <? fst (grid_size (sg s) l)) && (0 <=? row) && (row <? snd (grid_size (sg s) l))) eqn:Er; [|discriminate].
+  intros Hr. inversion Hr; subst r. clear Hr.
+  assert (Hv : valid_level (sg s) l = true) by (unfold valid_level; lia).
+  assert (Hp : public_level s false l = l) by (unfold public_level; rewrite Hs; reflexivity).
+  unfold layer_internal. rewrite (internal_valid s col row l false) by (rewrite ?Hp; try assumption; lia).
+  rewrite Hp. eexists. split; [reflexivity|].
+  unfold wmts_client_rect. rewrite (wmts_client_res_exact s l Hn Hd), Ftw, Fth.
+  destruct (if s_ne s then (snd (tm_top (wmts_matrix s l)), fst (tm_top (wmts_matrix s l))) else tm_top (wmts_matrix s l)) as [tlx tly].
+  destruct Ftop as [-> ->].
+  unfold flip_for, tile_bbox_c, flip_tile_coord, tile_bbox.
+  destruct (ul (sg s)) eqn:U; destruct (grid_size (sg s) l) as [nx ny]; cbn [snd]; rewrite ?U; apply bbox_eq; ring.
+Qed.
+
+(* finding W1: on a sqrt2 grid the requested matrix is doubled *)
+Definition w1_grid : grid := mkGrid 0 0 141400 141400 1 1 [141400; 100000; 70700; 50000] true 23 20 4 1.
+Definition w1_layer : tlayer := mkLayer w1_grid SrsOther false true false 1 1 (0, 0, 141400, 141400) 10.
+Lemma wmts_address_refuted_l :
+  exists s srv m col row r c,
+    wf (sg s) /\ 0 < s_mpu_n s /\ 0 < s_mpu_d s /\ skip_odd s = true /\
+    client_rect s srv (AWmts m col row) = Some r /\ served s srv (AWmts m col row) = Some c /\
+    tile_bbox_c (sg s) c <> r.
+Proof.
+  exists w1_layer, ONone, 1, 0, 0, (0, 41400, 100000, 141400), (0, 0, 2).
+  split. { unfold wf, pos_res, w1_layer, w1_grid; cbn. repeat split; lia. }
+  repeat split; try reflexivity. vm_compute. discriminate.
+Qed.
+
+Definition ex_ll_unaligned : grid := mkGrid 0 0 800 400 4 2 [100; 50] false 23 20 4 1.
+Example ex_wmts_exact :
+  client_rect (mkLayer ex_ll_unaligned SrsGeod false false true 7 2 (0, 0, 800, 400) 10) ONone (AWmts 1 3 0) = Some (600, 300, 800, 400) /\
+  served (mkLayer ex_ll_unaligned SrsGeod false false true 7 2 (0, 0, 800, 400) 10) ONone (AWmts 1 3 0) = Some (3, 3, 1).
+Proof. split; vm_compute; reflexivity. Qed.
+
+(* ---- /tiles with ?origin= / the origin option of the service, and /kml (forced 'sw') *)
+Definition request_origin (srv q : origin_req) : origin_req := match q with ONone => srv | _ => q end.
+
+Lemma tiles_address_exact_l s srv q z x y r c :
+  let l := public_level s false z in
+  (effective_origin (sg s) (request_origin srv q) = ul (sg s) \/ misalign (sg s) l = 0) ->
+  client_rect s srv (ATiles q z x y) = Some r ->
+  served s srv (ATiles q z x y) = Some c ->
+  tile_bbox_c (sg s) c = r.
+Proof.
+  cbv zeta. unfold client_rect, served. fold (request_origin srv q). intros Ha Hr Hc.
+  destruct (z <? 0); [discriminate|]. inversion Hr; subst r.
+  apply layer_internal_some in Hc. destruct Hc as (_ & -> & _).
+  apply flip_for_rect. exact Ha.
+Qed.
+
+Lemma kml_address_exact_l s srv z x y r c :
+  (ul (sg s) = false \/ misalign (sg s) (public_level s false z) = 0) ->
+  client_rect s srv (AKml z x y) = Some r ->
+  served s srv (AKml z x y) = Some c ->
+  tile_bbox_c (sg s) c = r.
+Proof.
+  unfold client_rect, served. intros Ha Hr Hc.
+  destruct (z <? 0); [discriminate|]. inversion Hr; subst r.
+  apply layer_internal_some in Hc. destruct Hc as (_ & -> & _).
+  change false with (effective_origin (sg s) OSW). apply flip_for_rect.
+  cbn [effective_origin]. destruct Ha as [-> | H]; auto.
+Qed.
+
+(* the request parameter wins over the service option; without either the grid's own origin is used *)
+Lemma origin_param_wins_l s srv srv' q z x y :
+  q <> ONone -> served s srv (ATiles q z x y) = served s srv' (ATiles q z x y).
+Proof. intros H. destruct q; [contradiction| |]; reflexivity. Qed.
+
+Lemma tiles_advertised_served_l s srv q z x y :
+  0 <= z -> valid_level (sg s) (public_level s false z) = true ->
+  0 <= x < fst (grid_size (sg s) (public_level s false z)) ->
+  0 <= y < snd (grid_size (sg s) (public_level s false z)) ->
+  exists c, served s srv (ATiles q z x y) = Some c.
+Proof.
+  intros Hz Hv Hx Hy. unfold served, layer_internal.
+  rewrite (internal_valid s x y z false Hz Hv Hx Hy). eexists. reflexivity.
+Qed.
+
+Example ex_origin_override :
+  served f8_layer OSW (ATiles ONW 1 0 0) = Some (0, 0, 1) /\ served f8_layer ONW (ATiles ONone 1 0 0) = Some (0, 0, 1) /\
+  served f8_layer ONone (ATiles OSW 1 0 0) = Some (0, 3, 1) /\
+  client_rect f8_layer OSW (ATiles ONW 1 0 0) = Some (0, 5000, 2000, 7000) /\ tile_bbox f8_grid 0 0 1 = (0, 5000, 2000, 7000).
+Proof. repeat split; vm_compute; reflexivity. Qed.
+
+(* ---- one statement for all services *)
+Definition addr_ok (s : tlayer) (srv : origin_req) (a : address) : Prop :=
+  match a with
+  | ATms z _ _ => tms_origin_ok s (public_level s true z)
+  | ATiles q z _ _ => effective_origin (sg s) (request_origin srv q) = ul (sg s) \/ misalign (sg s) (public_level s false z) = 0
+  | AKml z _ _ => ul (sg s) = false \/ misalign (sg s) (public_level s false z) = 0
+  | AWmts _ _ _ => 0 < s_mpu_n s /\ 0 < s_mpu_d s /\ skip_odd s = false
+  end.
+
+Lemma address_exact_l s srv a r c :
+  addr_ok s srv a -> client_rect s srv a = Some r -> served s srv a = Some c -> tile_bbox_c (sg s) c = r.
+Proof.
+  destruct a as [z x y|q z x y|z x y|m col row]; cbn [addr_ok]; intros Ha Hr Hc.
+  - apply (tms_address_exact_iff_l s srv z x y r c Hr Hc). exact Ha.
+  - exact (tiles_address_exact_l s srv q z x y r c Ha Hr Hc).
+  - exact (kml_address_exact_l s srv z x y r c Ha Hr Hc).
+  - destruct Ha as (Hn & Hd & Hs). destruct (wmts_address_exact_l s srv m col row r Hn Hd Hs Hr) as (c' & Hc' & He).
+    congruence.
+Qed.
+
+Lemma served_valid s srv a c :
+  served s srv a = Some c -> let '(x, y, l) := c in limit_tile (sg s) x y l = Some c.
+Proof.
+  assert (G : forall o up x y z, layer_internal s o up x y z = Some c -> let '(x, y, l) := c in limit_tile (sg s) x y l = Some c).
+  { intros o up x y z H. apply layer_internal_some in H. destruct H as (_ & -> & Hv & Hx & Hy).
+    pose proof (flip_for_valid (sg s) o x y (public_level s up z) (limit_tile_valid _ _ _ _ Hv Hx Hy)) as Hf.
+    destruct (flip_for (sg s) o (x, y, public_level s up z)) as [[x' y'] l']. exact Hf. }
+  destruct a as [z x y|q z x y|z x y|m col row]; cbn [served]; try apply G.
+  destruct (wmts_offered s); [apply G|discriminate].
+Qed.
+
+Lemma res_at_inj g l1 l2 :
+  decreasing_res g -> valid_level g l1 = true -> valid_level g l2 = true -> res_at g l1 = res_at g l2 -> l1 = l2.
+Proof.
+  intros Hd H1 H2 He. unfold valid_level in *.
+  destruct (Z.lt_trichotomy l1 l2) as [H|[H|H]]; [|exact H|].
+  - pose proof (Hd l1 l2 ltac:(lia) H ltac:(lia)). lia.
+  - pose proof (Hd l2 l1 ltac:(lia) H ltac:(lia)). lia.
+Qed.
+
+Lemma tile_bbox_inj g x1 y1 l1 x2 y2 l2 :
+  wf g -> decreasing_res g -> valid_level g l1 = true -> valid_level g l2 = true ->
+  tile_bbox g x1 y1 l1 = tile_bbox g x2 y2 l2 -> (x1, y1, l1) = (x2, y2, l2).
+Proof.
+  intros Hwf Hd H1 H2 He.
+  pose proof (res_at_pos g l1 Hwf H1) as R1. pose proof (res_at_pos g l2 Hwf H2) as R2.
+  destruct Hwf as (_ & _ & Htw & Hth & _).
+  assert (Hr : res_at g l1 = res_at g l2).
+  { unfold tile_bbox in He.
+    assert (res_at g l1 * tw g = res_at g l2 * tw g) by (destruct (ul g); inversion He; lia). nia. }
+  pose proof (res_at_inj g l1 l2 Hd H1 H2 Hr) as ->.
+  unfold tile_bbox in He. set (r := res_at g l2) in *.
+  assert (0 < r * tw g) by nia. assert (0 < r * th g) by nia.
+  assert (Hx : x1 * r * tw g = x2 * r * tw g) by (destruct (ul g); inversion He; lia).
+  assert (Hy : y1 * r * th g = y2 * r * th g) by (destruct (ul g); inversion He; lia).
+  assert (x1 = x2) by nia. assert (y1 = y2) by nia. subst. reflexivity.
+Qed.
+
+(* two addresses (any services, any origin conventions) for which the clients compute the same rectangle are
+   answered from the same internal tile, hence with the same cached image *)
+Lemma same_ground_tile_same_internal_l s srv a1 a2 r c1 c2 :
+  wf (sg s) -> decreasing_res (sg s) ->
+  addr_ok s srv a1 -> addr_ok s srv a2 ->
+  client_rect s srv a1 = Some r -> client_rect s srv a2 = Some r ->
+  served s srv a1 = Some c1 -> served s srv a2 = Some c2 ->
+  c1 = c2.
+Proof.
+  intros Hwf Hd O1 O2 R1 R2 S1 S2.
+  pose proof (address_exact_l s srv a1 r c1 O1 R1 S1) as E1.
+  pose proof (address_exact_l s srv a2 r c2 O2 R2 S2) as E2.
+  pose proof (served_valid s srv a1 c1 S1) as V1. pose proof (served_valid s srv a2 c2 S2) as V2.
+  destruct c1 as [[x1 y1] l1], c2 as [[x2 y2] l2]. cbn [tile_bbox_c] in *.
+  apply limit_tile_some in V1. apply limit_tile_some in V2.
+  apply (tile_bbox_inj (sg s)); try tauto. congruence.
+Qed.
+
+Lemma f8_decreasing : decreasing_res f8_grid.
+Proof.
+  intros i j Hi Hij Hj. unfold levels, f8_grid in *. cbn in Hj.
+  assert (i = 0 /\ j = 1 \/ i = 0 /\ j = 2 \/ i = 1 /\ j = 2) as [[-> ->]|[[-> ->]|[-> ->]]] by lia; vm_compute; reflexivity.
+Qed.
+
+(* non-vacuity: WMTS (north-west rows) and /tiles?origin=nw name the same tile of the unaligned ul grid *)
+Example ex_same_ground :
+  addr_ok f8_layer ONone (AWmts 1 2 1) /\ addr_ok f8_layer ONone (ATiles ONW 1 2 1) /\
+  client_rect f8_layer ONone (AWmts 1 2 1) = Some (4000, 3000, 6000, 5000) /\
+  client_rect f8_layer ONone (ATiles ONW 1 2 1) = Some (4000, 3000, 6000, 5000) /\
+  served f8_layer ONone (AWmts 1 2 1) = Some (2, 1, 1) /\ served f8_layer ONone (ATiles ONW 1 2 1) = Some (2, 1, 1).
+Proof.
+  split. { cbn. repeat split; lia. }
+  split. { left. reflexivity. }
+  repeat split; vm_compute; reflexivity.
+Qed.
+
+(* ---- WMS-C (GetMap tiled=true) *)
+Lemma create_tile_list_single x xs y ys l gs c :
+  create_tile_list (x :: xs) (y :: ys) l gs = [Some c] ->
+  xs = [] /\ ys = [] /\ tile_or_none (fst gs) (snd gs) l x y = Some c.
+Proof.
+  unfold create_tile_list. cbn [flat_map map]. intros H. inversion H as [[H0 H1]].
+  apply app_eq_nil in H1. destruct H1 as [Hm Hf]. apply map_eq_nil in Hm.
+  destruct ys as [|y2 ys2]; [auto|]. cbn [flat_map map] in Hf. discriminate.
+Qed.
+
+Lemma merge_bbox_idem a : merge_bbox a a = a.
+Proof. destruct a as [[[a0 a1] a2] a3]. unfold merge_bbox. apply bbox_eq; lia. Qed.
+
+(* a tiled GetMap that is answered with a tile has the tile size of the grid and every edge of the served tile
+   lies within 1/10 pixel of the requested rectangle: it is never answered with a neighbouring tile *)
+Lemma wmsc_exact_or_refused_l g b sx sy c :
+  wmsc_get_map g b sx sy = WLoaded c ->
+  sx = tw g /\ sy = th g /\ bbox_equals_tenth b (tile_bbox_c g c) sx sy = true.
+Proof.
+  unfold wmsc_get_map.
+  destruct ((sx =? tw g) && (sy =? th g)) eqn:Es; cbn [negb]; [|discriminate].
+  destruct (affected_level g b sx sy) as [l|]; [|discriminate].
+  rewrite affected_unfold.
+  destruct (aff_cols g b l) as [|xf xs] eqn:Ec; [discriminate|].
+  destruct (aff_rows g b l) as [|yf ys] eqn:Er; [discriminate|].
+  match goal with |- (if ?c then _ else _) = _ -> _ => destruct c; [discriminate|] end.
+  match goal with |- (if negb ?c then _ else _) = _ -> _ => destruct c eqn:Eb; cbn [negb]; [|discriminate] end.
+  destruct (create_tile_list (xf :: xs) (yf :: ys) l (grid_size g l)) as [|[c0|] [|? ?]] eqn:Et; try discriminate.
+  intros H. inversion H; subst c0. clear H.
+  apply create_tile_list_single in Et. destruct Et as (-> & -> & Ht).
+  cbn [last] in Eb. rewrite merge_bbox_idem in Eb.
+  unfold tile_or_none in Ht.
+  destruct ((xf <? 0) || (yf <? 0) || (fst (grid_size g l) <=? xf) || (snd (grid_size g l) <=? yf)); [discriminate|].
+  inversion Ht; subst c. cbn [tile_bbox_c]. repeat split; try lia. exact Eb.
+Qed.
+
+Lemma bbox_equals_tenth_spec a b sx sy :
+  bbox_equals_tenth a b sx sy = true ->
+  let '(a0, a1, a2, a3) := a in let '(b0, b1, b2, b3) := b in
+  Z.abs (a0 - b0) * (10 * sx) < Z.abs (a2 - a0) /\ Z.abs (a1 - b1) * (10 * sx) < Z.abs (a2 - a0) /\
+  Z.abs (a2 - b2) * (10 * sy) < Z.abs (a3 - a1) /\ Z.abs (a3 - b3) * (10 * sy) < Z.abs (a3 - a1).
+Proof.
+  destruct a as [[[a0 a1] a2] a3], b as [[[b0 b1] b2] b3]. unfold bbox_equals_tenth. lia.
+Qed.
+
+Example ex_wmsc :
+  wmsc_get_map ex_ll_unaligned (400, 100, 600, 200) 4 2 = WLoaded (2, 1, 1) /\
+  wmsc_get_map ex_ll_unaligned (404, 100, 604, 200) 4 2 = WLoaded (2, 1, 1) /\
+  wmsc_get_map ex_ll_unaligned (406, 100, 606, 200) 4 2 = WRefused /\
+  wmsc_get_map f8_grid (0, 0, 4000, 4000) 100 100 = WRefused.
+Proof. repeat split; vm_compute; reflexivity. Qed.
+
+(* ---- KML super-overlay links *)
+Lemma kml_href_roundtrip_l s srv x y l h :
+  skip_odd s = false ->
+  limit_tile (sg s) x y l = Some (x, y, l) ->
+  kml_href_coord s (x, y, l) = Some h ->
+  let '(hx, hy, hz) := h in served s srv (AKml hz hx hy) = Some (x, y, l).
+Proof.
+  intros Hs Hl. unfold kml_href_coord, external_tile_coord. rewrite Hs. cbn [andb].
+  pose proof (limit_tile_some _ _ _ _ _ Hl) as (_ & Hv & Hx & Hy).
+  assert (0 <= l) by (unfold valid_level in Hv; lia). replace (l <? 0) with false by lia.
+  intros H0. inversion H0; subst h. clear H0.
+  assert (Hp : public_level s false l = l) by (unfold public_level; rewrite Hs; reflexivity).
+  unfold served, layer_internal, flip_for.
+  destruct (ul (sg s)) eqn:U.
+  - unfold flip_tile_coord.
+    rewrite (internal_valid s x (snd (grid_size (sg s) l) - 1 - y) l false) by (rewrite ?Hp; try assumption; lia).
+    rewrite Hp. unfold flip_tile_coord. f_equal. f_equal. f_equal. lia.
+  - rewrite (internal_valid s x y l false) by (rewrite ?Hp; try assumption; lia). rewrite Hp. reflexivity.
+Qed.
+
+(* finding K1: sqrt2 level skip and origin ul: the link of internal tile (0, 0, 2) is flipped with the grid size of level 1 *)
+Lemma kml_href_refuted_l :
+  exists s srv x y l hx hy hz,
+    wf (sg s) /\ skip_odd s = true /\ ul (sg s) = true /\ limit_tile (sg s) x y l = Some (x, y, l) /\
+    kml_href_coord s (x, y, l) = Some (hx, hy, hz) /\ served s srv (AKml hz hx hy) <> Some (x, y, l).
+Proof.
+  exists w1_layer, ONone, 0, 0, 2, 0, 0, 1.
+  split. { unfold wf, pos_res, w1_layer, w1_grid; cbn. repeat split; lia. }
+  repeat split; try reflexivity. vm_compute. discriminate.
+Qed.
+
+Example ex_kml_doc :
+  kml_document ex_geod_layer 0 0 0 =
+  KmlDoc (-1800, -900, 1800, 900)
+    [(Some (0, 1, 1), (-1800, 0, 0, 1800)); (Some (1, 1, 1), (0, 0, 1800, 1800));
+     (Some (0, 0, 1), (-1800, -1800, 0, 0)); (Some (1, 0, 1), (0, -1800, 1800, 0))].
+Proof. vm_compute. reflexivity. Qed.
